@@ -1,0 +1,375 @@
+//! Simulation seam (cargo feature `verif`, off by default).
+//!
+//! Lets an external deterministic simulator observe and decide the points
+//! where veryl meets nondeterminism or faults: file writes, renames, lock
+//! acquisitions, clock reads and a few scheduling choices. Every hook is a
+//! no-op unless a simulator is attached, either through a thread-local
+//! handler (in-process actors) or through the `VERYL_SIM_SOCK` Unix socket
+//! (subprocess actors; one connection per OS thread).
+//!
+//! Wire protocol, one line each way per gate:
+//!   actor -> simulator: `E\t<kind>\t<path>\t<len>\t<hash>\n`
+//!   simulator -> actor: `G` go | `F <errno>` fail | `C` crash |
+//!                       `P <n>` write an n-byte prefix then crash | `V <u64>` value
+
+use std::cell::RefCell;
+use std::fs::File;
+use std::io::{self, BufRead, BufReader, Write};
+use std::os::unix::net::UnixStream;
+use std::path::{Path, PathBuf};
+use std::time::{Duration, SystemTime};
+
+#[derive(Clone, Debug)]
+pub struct Event {
+    pub kind: String,
+    pub path: String,
+    pub len: u64,
+    pub hash: u64,
+}
+
+#[derive(Clone, Copy, Debug, PartialEq, Eq)]
+pub enum Verdict {
+    Go,
+    Fail(i32),
+    Crash,
+    CrashPrefix(u64),
+    Value(u64),
+}
+
+/// Payload of the unwinding "crash" of an in-process actor.
+pub struct SimCrash;
+
+pub type Handler = Box<dyn FnMut(&Event) -> Verdict>;
+
+struct Conn {
+    reader: BufReader<UnixStream>,
+    writer: UnixStream,
+}
+
+thread_local! {
+    static HANDLER: RefCell<Option<Handler>> = const { RefCell::new(None) };
+    static CONN: RefCell<Option<Option<Conn>>> = const { RefCell::new(None) };
+    static CACHE_PATH: RefCell<Option<PathBuf>> = const { RefCell::new(None) };
+}
+
+/// Installs (or removes) the in-process handler of the calling thread.
+pub fn set_thread_handler(handler: Option<Handler>) {
+    HANDLER.with(|x| *x.borrow_mut() = handler);
+}
+
+/// Per-thread override of the user cache directory for in-process actors.
+pub fn set_thread_cache_path(path: Option<PathBuf>) {
+    CACHE_PATH.with(|x| *x.borrow_mut() = path);
+}
+
+pub fn cache_path_override() -> Option<PathBuf> {
+    CACHE_PATH.with(|x| x.borrow().clone())
+}
+
+fn in_process() -> bool {
+    HANDLER.with(|x| x.borrow().is_some())
+}
+
+fn connect() -> Option<Conn> {
+    let sock = std::env::var_os("VERYL_SIM_SOCK")?;
+    let stream = UnixStream::connect(sock).ok()?;
+    let writer = stream.try_clone().ok()?;
+    let mut conn = Conn {
+        reader: BufReader::new(stream),
+        writer,
+    };
+    let name = std::env::var("VERYL_SIM_ACTOR").unwrap_or_default();
+    let thread = std::thread::current()
+        .name()
+        .unwrap_or("unnamed")
+        .to_string();
+    let hello = format!("H\t{name}\t{}\t{thread}\n", std::process::id());
+    conn.writer.write_all(hello.as_bytes()).ok()?;
+    Some(conn)
+}
+
+/// True when a simulator is attached to the calling thread.
+pub fn active() -> bool {
+    if in_process() {
+        return true;
+    }
+    CONN.with(|x| {
+        let mut x = x.borrow_mut();
+        if x.is_none() {
+            *x = Some(connect());
+        }
+        x.as_ref().unwrap().is_some()
+    })
+}
+
+pub fn fnv(data: &[u8]) -> u64 {
+    let mut h: u64 = 0xcbf29ce484222325;
+    for b in data {
+        h ^= *b as u64;
+        h = h.wrapping_mul(0x100000001b3);
+    }
+    h
+}
+
+fn parse_verdict(line: &str) -> Verdict {
+    let line = line.trim_end();
+    let mut it = line.split(' ');
+    match it.next() {
+        Some("G") => Verdict::Go,
+        Some("C") => Verdict::Crash,
+        Some("F") => Verdict::Fail(it.next().and_then(|x| x.parse().ok()).unwrap_or(5)),
+        Some("P") => Verdict::CrashPrefix(it.next().and_then(|x| x.parse().ok()).unwrap_or(0)),
+        Some("V") => Verdict::Value(it.next().and_then(|x| x.parse().ok()).unwrap_or(0)),
+        _ => Verdict::Go,
+    }
+}
+
+/// Reports one event and blocks until the simulator decides.
+pub fn gate(kind: &str, path: &Path, len: u64, hash: u64) -> Verdict {
+    if !active() {
+        return Verdict::Go;
+    }
+    let handled = HANDLER.with(|x| {
+        // Taken out during the call so a handler may re-enter hooks safely.
+        let handler = x.borrow_mut().take();
+        handler.map(|mut handler| {
+            let event = Event {
+                kind: kind.to_string(),
+                path: path.to_string_lossy().to_string(),
+                len,
+                hash,
+            };
+            let verdict = handler(&event);
+            let mut slot = x.borrow_mut();
+            if slot.is_none() {
+                *slot = Some(handler);
+            }
+            verdict
+        })
+    });
+    if let Some(verdict) = handled {
+        return verdict;
+    }
+    CONN.with(|x| {
+        let mut x = x.borrow_mut();
+        let Some(Some(conn)) = x.as_mut() else {
+            return Verdict::Go;
+        };
+        let line = format!("E\t{kind}\t{}\t{len}\t{hash}\n", path.to_string_lossy());
+        if conn.writer.write_all(line.as_bytes()).is_err() {
+            // The simulator is gone: a subprocess actor must not outlive it.
+            die();
+        }
+        let mut reply = String::new();
+        match conn.reader.read_line(&mut reply) {
+            Ok(n) if n > 0 => parse_verdict(&reply),
+            _ => die(),
+        }
+    })
+}
+
+unsafe extern "C" {
+    fn _exit(code: i32) -> !;
+}
+
+/// Dies like a killed process: no destructors, no flush. In-process actors
+/// unwind with a [`SimCrash`] payload instead.
+pub fn die() -> ! {
+    if in_process() {
+        std::panic::resume_unwind(Box::new(SimCrash));
+    }
+    unsafe { _exit(137) }
+}
+
+fn fail(errno: i32) -> io::Error {
+    io::Error::from_raw_os_error(errno)
+}
+
+/// A plain gate: proceed, fail with an I/O error, or crash here.
+pub fn point(kind: &str, path: &Path) -> io::Result<()> {
+    match gate(kind, path, 0, 0) {
+        Verdict::Fail(e) => Err(fail(e)),
+        Verdict::Crash | Verdict::CrashPrefix(_) => die(),
+        _ => Ok(()),
+    }
+}
+
+/// Like [`point`], for a step that holds a temp file a real crash would leave
+/// behind: an unwinding in-process crash keeps a hard link to it.
+pub fn point_keep(kind: &str, path: &Path, temp: &Path) -> io::Result<()> {
+    match gate(kind, path, 0, 0) {
+        Verdict::Fail(e) => Err(fail(e)),
+        Verdict::Crash | Verdict::CrashPrefix(_) => {
+            keep_temp(temp);
+            die()
+        }
+        _ => Ok(()),
+    }
+}
+
+fn keep_temp(temp: &Path) {
+    if in_process() {
+        let mut kept = temp.as_os_str().to_os_string();
+        kept.push(".kept");
+        let _ = std::fs::hard_link(temp, PathBuf::from(kept));
+    }
+}
+
+/// Gate in front of a `fs::write(path, data)`: exposes the moment the file is
+/// truncated but not yet written, and can tear the write (prefix, then crash).
+pub fn write_point(kind: &str, path: &Path, data: &[u8]) -> io::Result<()> {
+    if !active() {
+        return Ok(());
+    }
+    point(&format!("{kind}.open"), path)?;
+    let mut file = File::create(path)?;
+    write_point_open(kind, &mut file, path, data)
+}
+
+/// Gate between `open(truncate)` and `write_all(data)` on `file`.
+pub fn write_point_open(kind: &str, file: &mut File, path: &Path, data: &[u8]) -> io::Result<()> {
+    if !active() {
+        return Ok(());
+    }
+    match gate(&format!("{kind}.data"), path, data.len() as u64, fnv(data)) {
+        Verdict::Fail(e) => Err(fail(e)),
+        Verdict::Crash => die(),
+        Verdict::CrashPrefix(n) => {
+            let n = (n as usize).min(data.len());
+            let _ = file.write_all(&data[..n]);
+            let _ = file.flush();
+            die()
+        }
+        _ => Ok(()),
+    }
+}
+
+/// Gate between creating the temp file of an atomic write and filling it.
+pub fn temp_point(kind: &str, file: &mut File, temp: &Path, path: &Path, data: &[u8]) -> io::Result<()> {
+    if !active() {
+        return Ok(());
+    }
+    match gate(&format!("{kind}.data"), path, data.len() as u64, fnv(data)) {
+        Verdict::Fail(e) => Err(fail(e)),
+        Verdict::Crash => {
+            keep_temp(temp);
+            die()
+        }
+        Verdict::CrashPrefix(n) => {
+            let n = (n as usize).min(data.len());
+            let _ = file.write_all(&data[..n]);
+            let _ = file.flush();
+            keep_temp(temp);
+            die()
+        }
+        _ => Ok(()),
+    }
+}
+
+/// Reports the bytes a read returned (post-read observation, never fails).
+pub fn observe_read(kind: &str, path: &Path, data: &[u8]) {
+    if active() {
+        let _ = gate(kind, path, data.len() as u64, fnv(data));
+    }
+}
+
+/// Simulated wall clock, when the simulator supplies one.
+pub fn now() -> Option<SystemTime> {
+    if !active() {
+        return None;
+    }
+    match gate("now", Path::new(""), 0, 0) {
+        Verdict::Value(ms) => Some(SystemTime::UNIX_EPOCH + Duration::from_millis(ms)),
+        _ => None,
+    }
+}
+
+/// A scheduling choice in `0..n` (`default` when no simulator decides).
+pub fn choice(tag: &str, n: usize, default: usize) -> usize {
+    if !active() {
+        return default;
+    }
+    match gate(&format!("choice.{tag}"), Path::new(""), n as u64, default as u64) {
+        Verdict::Value(v) if n > 0 => (v as usize) % n,
+        _ => default,
+    }
+}
+
+/// Lets the simulator permute an order that must not matter.
+pub fn permute<T>(tag: &str, items: &mut [T]) {
+    if !active() || items.len() < 2 {
+        return;
+    }
+    if let Verdict::Value(seed) = gate(&format!("perm.{tag}"), Path::new(""), items.len() as u64, 0) {
+        if seed == 0 {
+            return;
+        }
+        let mut state = seed;
+        let mut next = || {
+            state = state.wrapping_add(0x9e3779b97f4a7c15);
+            let mut z = state;
+            z = (z ^ (z >> 30)).wrapping_mul(0xbf58476d1ce4e5b9);
+            z = (z ^ (z >> 27)).wrapping_mul(0x94d049bb133111eb);
+            z ^ (z >> 31)
+        };
+        for i in (1..items.len()).rev() {
+            let j = (next() % (i as u64 + 1)) as usize;
+            items.swap(i, j);
+        }
+    }
+}
+
+/// Simulator-aware acquisition of an exclusive `flock` on `file`: never blocks
+/// in the kernel, reports `lock.blocked` and retries when told to. After it
+/// returns `Ok`, a blocking lock call on the same descriptor returns at once.
+pub fn lock_blocking(file: &File, path: &Path) -> io::Result<()> {
+    if !active() {
+        return Ok(());
+    }
+    loop {
+        point("lock.acq", path)?;
+        match fs4::FileExt::try_lock(file) {
+            Ok(()) => {
+                point("lock.got", path)?;
+                return Ok(());
+            }
+            Err(fs4::TryLockError::WouldBlock) => {
+                point("lock.blocked", path)?;
+            }
+            Err(fs4::TryLockError::Error(e)) => return Err(e),
+        }
+    }
+}
+
+/// The actor is about to wait for `children` threads it spawns (each becomes
+/// an actor at its first gate); it is not runnable until [`blocking_end`].
+pub fn blocking_begin(tag: &str, children: usize) {
+    if active() {
+        let _ = gate(&format!("block.begin.{tag}"), Path::new(""), children as u64, 0);
+    }
+}
+
+pub fn blocking_end(tag: &str) {
+    if active() {
+        let _ = gate(&format!("block.end.{tag}"), Path::new(""), 0, 0);
+    }
+}
+
+/// Closes the calling thread's connection (worker threads that finish).
+pub fn disconnect() {
+    CONN.with(|x| *x.borrow_mut() = Some(None));
+}
+
+/// Visibility of a background-compiled artifact at one dispatch call:
+/// 0 = pretend it is not ready, 1 = use the real state, 2 = wait until it is
+/// really ready, then use it. `cell` identifies the artifact within the run.
+pub fn aot_gate(cell: usize, is_const: bool, ready: bool) -> u64 {
+    if !active() {
+        return 1;
+    }
+    let kind = if is_const { "aot.const" } else { "aot.main" };
+    match gate(kind, Path::new(""), cell as u64, ready as u64) {
+        Verdict::Value(v) => v,
+        _ => 1,
+    }
+}
